@@ -2,9 +2,9 @@ package main
 
 import (
 	"context"
+	"encoding/json"
 	"fmt"
 	"math"
-	"encoding/json"
 	"os"
 	"os/exec"
 	"path/filepath"
@@ -37,6 +37,8 @@ type c20Fixture struct {
 	fc *layers.FC    // shared layer with tracked parameters
 	x  tensor.Tensor // shared untracked input [2,2]
 	t1 tensor.Tensor // shared untracked targets [4]
+	// special data (round 16): shared tensors a data-dependent shortcut would single out
+	zeros, zrow, ones tensor.Tensor // all zeros [2,2]; first row all zeros, second generic [2,2]; all ones [2,2]
 	// component objects shared by the goroutines (one model object serving several requests)
 	relu    *activations.Relu
 	lrelu   *activations.LeakyRelu
@@ -56,6 +58,9 @@ func c20NewFixture() *c20Fixture {
 	f.u = rt.Make(enum.Generic([]int{2, 2}, 1002, 0.5, 2, true), false)
 	f.x = rt.Make(enum.Generic([]int{2, 2}, 1003, 0.5, 2, true), false)
 	f.t1 = rt.Make(enum.Generic([]int{4}, 1004, 0.1, 0.9, false), false)
+	f.zeros = rt.Make(ref.FullOf([]int{2, 2}, 0), false)
+	f.zrow = rt.Make(&ref.T{Shape: []int{2, 2}, V: []float64{0, 0, 1.25, -0.75}}, false)
+	f.ones = rt.Make(ref.FullOf([]int{2, 2}, 1), false)
 	w := enum.Generic([]int{2}, 1005, 0.5, 2, true)
 	b := enum.Generic([]int{2}, 1006, 0.5, 2, true)
 	fc, err := layers.NewFC(&layers.FCConfig{Inputs: 2, Outputs: 2, Initializers: map[string]layers.Initializer{"Weight": fixedInit{t: w}, "Bias": fixedInit{t: b}}})
@@ -83,7 +88,7 @@ func c20NewFixture() *c20Fixture {
 
 // shared returns the shared objects whose private state must never change.
 func (f *c20Fixture) shared() []tensor.Tensor {
-	return []tensor.Tensor{f.p, f.u, f.x, f.t1, f.fc.Weight, f.fc.Bias}
+	return []tensor.Tensor{f.p, f.u, f.x, f.t1, f.fc.Weight, f.fc.Bias, f.zeros, f.zrow, f.ones}
 }
 
 func inspectAll(ts []tensor.Tensor) string {
@@ -426,6 +431,22 @@ func c20Bodies() []c20Body {
 			r := math.Sqrt(6. / 3.)
 			return []string{"R:" + obsT(a, e1), "R:" + obsT(b, e2), "R:" + obsT(c, e3),
 				fmt.Sprint("support:", inSupport(a, -1, 3), inSupport(c, -r, r))}
+		}},
+		{name: "specialdata", run: func(f *c20Fixture, y func()) []string {
+			// operands a data-dependent shortcut singles out: all-zero rows, all zeros, all ones, one operand above the other
+			y()
+			a, e1 := f.zrow.MatMul(f.u)
+			y()
+			b, e2 := f.p.MatMul(f.zeros)
+			y()
+			c, e3 := f.zeros.Add(f.zrow)
+			y()
+			d, e4 := f.ones.ElMax(f.zeros)
+			y()
+			e, e5 := f.p.Mul(f.ones)
+			y()
+			g, e6 := f.zrow.SumAlong(1)
+			return []string{obsT(a, e1), obsT(b, e2), obsT(c, e3), obsT(d, e4), obsT(e, e5), obsT(g, e6), fmt.Sprint(f.zeros.Sum() + f.zrow.Max())}
 		}},
 	}
 }
@@ -989,6 +1010,18 @@ func cmdRacePass(args []string) int {
 			s = []int{7 + r}
 		}
 		shared := rt.Make(enum.Generic(s, uint64(3000+r), 0.5, 2, true), false)
+		nS, kS := 2+r%5, 3+r
+		zr := enum.Generic([]int{3, nS}, uint64(5000+r), 0.5, 2, true)
+		for j := 0; j < nS; j++ {
+			zr.V[j] = 0 // first row all zeros
+		}
+		rhs := enum.Generic([]int{nS, kS}, uint64(5100+r), 0.5, 2, true)
+		wantS, _ := ref.Eval(ref.Op{K: "MatMul"}, []*ref.T{zr, rhs})
+		for j := 0; j < kS; j++ {
+			wantS.V[j] = 0 // +0: a row of zeros times anything finite
+		}
+		zrowS, rhsS := rt.Make(zr, false), rt.Make(rhs, false)
+		zeroS, onesS, rhsS2 := rt.Make(ref.FullOf([]int{nS, kS}, 0), false), rt.Make(ref.FullOf([]int{nS, kS}, 1), false), rt.Make(rhs, false)
 		var wg sync.WaitGroup
 		start := make(chan struct{})
 		bad := make([]string, 3)
@@ -1019,6 +1052,25 @@ func cmdRacePass(args []string) int {
 				}
 				_ = shared.Sum()
 				if _, err := shared.SumAlong(0); err != nil {
+					bad[g] = err.Error()
+					return
+				}
+				// special data of sizes never used before (round 16): a left matrix with an all-zero row, an
+				// all-zero and an all-ones operand, products whose row length grows from round to round -
+				// whatever a data-dependent shortcut builds lazily (a shared zero row, a cached constant) is
+				// built, or has to grow, while several goroutines are inside the same operation
+				if got, err := zrowS.MatMul(rhsS); err != nil {
+					bad[g] = err.Error()
+					return
+				} else if ok, msg := core.ExactEq(rt.Read(got), wantS); !ok {
+					bad[g] = "MatMul of a shared matrix with an all-zero row: " + msg
+					return
+				}
+				if _, err := zeroS.Add(rhsS2); err != nil {
+					bad[g] = err.Error()
+					return
+				}
+				if _, err := onesS.Mul(rhsS2); err != nil {
 					bad[g] = err.Error()
 					return
 				}
